@@ -112,6 +112,7 @@ uint8_t g_frame_closed;   /* current frame trimmed: nothing may be appended */
 #define BATCH_INSTANTIATE __CPROVER_assume(g_done == g_i)   /* forall-instantiation: the loop body is checked for the iteration that handles packet g_i */
 #endif
 size_t g_n0;               /* frames opened before the current putPacket */
+size_t g_closed_size;      /* final size of the frame that a roll-over closed (captured when the frame list takes the next frame) */
 size_t g_batch_n;          /* number of packets of the batch (ghost constant) */
 size_t g_done;             /* packets of the batch encoded so far */
 uint8_t g_version;        /* the batch's protocol version (ghost constant: never assigned) */
